@@ -26,12 +26,19 @@ Theorem terms_model_eq_spec_nonvacuous :
 Proof. exact all_cfgs_size. Qed.
 Print Assumptions terms_model_eq_spec_nonvacuous.
 
-(* Known finding D58: "no accepted call aborts" is false of the faithful model -- a rectangular S matrix
-   on a diagonal type passes every argument check and reaches assert(vnprp != NULL) in build_terms_t8
-   (witness replayed on the library by checks/C01.py). *)
-Theorem rectangular_s_reaches_assert_refuted : exists a, add_common a = Aborts 11.
-Proof. exact rectangular_s_reaches_assert. Qed.
-Print Assumptions rectangular_s_reaches_assert_refuted.
+(* D63 (repaired in /repo): a rectangular S matrix is refused (EINVAL) for every type other than T16 and
+   U16.  Bound in the statement: 6 types x dims 1..4 x every s_rows <> s_columns (rect_cases). *)
+Theorem rectangular_s_refused : forall c, In c rect_cases -> is_rejected (add_common (rect_args c)) = true.
+Proof. exact rectangular_s_refused_lemma. Qed.
+Print Assumptions rectangular_s_refused.
+
+(* The connectivity matrix built by the union-find code of build_connectivity_matrix is the
+   reflexive-symmetric-transitive closure of "S cell not known to be zero".  Bound in the statement:
+   up to 4 ports, every pattern of known-zero off-diagonal cells. *)
+Theorem connectivity_closed :
+  forall n nz, In n (1 :: 2 :: 3 :: 4 :: nil)%nat -> In nz (sublists (offdiag n)) -> conn_ok n nz = true.
+Proof. exact connectivity_closed_lemma. Qed.
+Print Assumptions connectivity_closed.
 
 (* ------------------------------------------------------------------------------------------------ *)
 From mathcomp Require Import all_ssreflect all_fingroup all_algebra.
